@@ -38,7 +38,7 @@ m = {
         "add_only": True,
     },
     "engines": [{"name": "dirk-dsim", "path": "/verif/sim", "serves_properties": sorted(claimed),
-                 "kind_free_text": "deterministic simulation with fault injection: real dirk services in one process under a seeded one-thread-at-a-time scheduler (testing/synctest quiescence + fake clock, enabledness from TryLock on the real mutexes), simulated DKG transport, crash/restart on directory images, reference-model and porcupine oracles; bin/check drives 16 worker processes, minimises and re-replays violations"}],
+                 "kind_free_text": "deterministic simulation with fault injection: real dirk services in one process under a seeded one-thread-at-a-time scheduler (testing/synctest quiescence + fake clock, enabledness from TryLock on the real mutexes), simulated DKG transport, crash/restart on directory images, reference-model and porcupine oracles; free-running (unscheduled, workload-seeded) layers for locks without hooks and true-parallelism failures; real gRPC/TLS edge tables; process-level kill, power-loss and full-disk layers; bin/check drives 16 worker processes, minimises and re-replays violations"}],
     "checks": checks,
     "notes": "rules/standard TestRules/PathDisallowed expects a permission error opening a store at '/', so it fails whenever the suite runs as root (also on the pristine commit); it is unrelated to the hooks. Replay files are written under /verif/replays/. See DESIGN.md.",
     "not_applicable": na,
